@@ -100,12 +100,13 @@ def Rom.step (r : Rom) (w : Bytes) : Rom × Bytes :=
     let idx := r.ncmd - 1
     let r0 := { r with recv := none }
     if w.length = n then
-      let st := match r.forced.lookup idx with
-        | some v => v
-        | none => okValue tag
-      if tag = Spec.cWriteFile ∧ a + n ≤ r.mem.length ∧ (r.forced.lookup idx).isNone then
-        ({ r0 with mem := splice r.mem a w }, r.hab ++ be 4 st)
-      else (r0, r.hab ++ be 4 st)
+      match r.forced.lookup idx with
+      | some v => (r0, r.hab ++ be 4 v)
+      | none =>
+        if tag = Spec.cWriteFile then
+          if a + n ≤ r.mem.length then ({ r0 with mem := splice r.mem a w }, r.hab ++ be 4 Spec.rWriteFileOk)
+          else (r0, r.hab ++ be 4 0)                 -- address range refused
+        else (r0, r.hab ++ be 4 (okValue tag))
     else (r0, [])
   | none =>
     match parseCmd w with
